@@ -31,6 +31,79 @@ def allStringsHeap (main : List StrClass) (h : Heap) (L : Labels) (strp : Bool) 
     | .ok ds => .ok (ds.filterMap (fun e => tagKeep (resolveTag main (L.interesting x) types) strp (shallow h L e)))
   else .ok (allStringsImpl main strp types (.str (L.cls x) (h.val x)))
 
+/-! ### the generator protocol: iteration interleaved with edits by the consumer
+
+`.strings` hands out the live string objects one at a time; between two `next()` calls the consumer may edit the tree —
+typically the string it was just given (`s.replace_with(…)`, `s.extract()`, …). `Tag.descendants` is written so that
+this does not end the iteration: `successor = current.next_element` is read **before** `yield current`, and the stop
+node is fixed when the iteration starts. -/
+
+/-- the local variables of the generator `Tag.descendants` between two `next()` calls -/
+structure GenSt where
+  current : Option Nat
+  stop : Option Nat
+
+/-- the statements of `Tag.descendants` before its loop; `none` = the generator returns at once (no contents) -/
+def genStart (h : Heap) (t : Nat) : Except Err (Option GenSt) :=
+  match (h.kids t).head? with
+  | none => .ok none
+  | some first =>
+    match lastDescendant h t true with
+    | .error e => .error e
+    | .ok last => .ok (some { current := some first, stop := h.ne last })
+
+/-- one turn of `while current is not stopNode and current is not None: successor = current.next_element; yield current;
+    current = successor` — the successor is read from the heap as it is *before* the consumer gets the element -/
+def genNext (h : Heap) (st : GenSt) : Option (Nat × GenSt) :=
+  match st.current with
+  | none => none
+  | some c => if some c = st.stop then none else some (c, { st with current := h.ne c })
+
+/-- `for s in tag._all_strings(False, types): <consumer edits the tree>`: `keep` is the loop body's filter, `edit h k s` the
+    editing call the consumer makes on the `k`-th string handed out (`none` = it only looks). Result: the strings handed
+    out, in order, and the final heap. `f` bounds the number of `next()` turns. -/
+def stringsIterEdit (keep : Heap → Nat → Bool) (edit : Heap → Nat → Nat → Option Op) :
+    Nat → Heap → GenSt → Nat → Except Err (List Nat × Heap)
+  | 0, h, _, _ => .ok ([], h)
+  | f + 1, h, st, k =>
+    match genNext h st with
+    | none => .ok ([], h)
+    | some (c, st') =>
+      if keep h c then
+        match edit h k c with
+        | none =>
+          match stringsIterEdit keep edit f h st' (k + 1) with
+          | .error e => .error e
+          | .ok (l, h') => .ok (c :: l, h')
+        | some op =>
+          match step h op with
+          | .error e => .error e
+          | .ok h1 =>
+            match stringsIterEdit keep edit f h1 st' (k + 1) with
+            | .error e => .error e
+            | .ok (l, h') => .ok (c :: l, h')
+      else stringsIterEdit keep edit f h st' k
+
+/-- the elements the generator hands out when nobody edits the tree in between (`f` bounds the number of turns) -/
+def genList (h : Heap) : Nat → GenSt → List Nat
+  | 0, _ => []
+  | f + 1, st =>
+    match genNext h st with
+    | none => []
+    | some (c, st') => c :: genList h f st'
+
+/-- the filter of `Tag._all_strings(False, types)` on receiver `x` -/
+def heapKeeps (main : List StrClass) (L : Labels) (types : TypesArg) (x : Nat) (h : Heap) (e : Nat) : Bool :=
+  (tagKeep (resolveTag main (L.interesting x) types) false (shallow h L e)).isSome
+
+/-- the whole interleaved iteration on a tag -/
+def stringsIterEditFrom (main : List StrClass) (L : Labels) (types : TypesArg) (edit : Heap → Nat → Nat → Option Op)
+    (fuel : Nat) (h : Heap) (x : Nat) : Except Err (List Nat × Heap) :=
+  match genStart h x with
+  | .error e => .error e
+  | .ok none => .ok ([], h)
+  | .ok (some st) => stringsIterEdit (heapKeeps main L types x) edit fuel h st 0
+
 /-- `PageElement.get_text` on the heap -/
 def getTextHeap (main : List StrClass) (h : Heap) (L : Labels) (sep : PStr) (strp : Bool) (types : TypesArg) (x : Nat) :
     Except Err PStr :=
